@@ -15,6 +15,8 @@ import (
 	"math/big"
 	"strings"
 
+	jose "github.com/go-jose/go-jose/v3"
+	josejson "github.com/go-jose/go-jose/v3/json"
 	"github.com/go-jose/go-jose/v3/jwt"
 	"github.com/google/go-tpm/legacy/tpm2"
 	"github.com/pomerium/webauthn/fido"
@@ -103,6 +105,68 @@ func answerAsk(d *Driver, kind string, q M) any {
 		return M{"nat": int64(h)}
 	case "safetyNet":
 		return safetyNetView(unhx(q["raw"].(string)))
+	case "x509Verify":
+		// leaf.Verify against the system roots (the harness CA, see gen_reg.go init) with the named intermediates and DNS name
+		leaf, err := x509.ParseCertificate(unhx(q["leaf"].(string)))
+		if err != nil {
+			return M{"bool": false}
+		}
+		opts := x509.VerifyOptions{DNSName: string(unhx(q["dns"].(string))), Intermediates: x509.NewCertPool()}
+		for _, h := range q["intermediates"].([]any) {
+			c, err := x509.ParseCertificate(unhx(h.(string)))
+			if err != nil {
+				return M{"bool": false}
+			}
+			opts.Intermediates.AddCert(c)
+		}
+		chains, err := leaf.Verify(opts)
+		return M{"bool": err == nil && len(chains) > 0 && len(chains[0]) > 0}
+	case "x509VerifyPool":
+		// leaf.Verify(VerifyOptions{Roots: pool, Intermediates}): pool 0 = the default root of fido.GlobalSignRootCAPEM, 1 = nil (system roots), i+2 = i-th custom pool
+		leaf, err := x509.ParseCertificate(unhx(q["leaf"].(string)))
+		if err != nil {
+			return M{"bool": false}
+		}
+		opts := x509.VerifyOptions{Intermediates: x509.NewCertPool()}
+		switch code := int(num(q["pool"])); {
+		case code == 0:
+			opts.Roots = x509.NewCertPool()
+			opts.Roots.AppendCertsFromPEM(fido.GlobalSignRootCAPEM)
+		case code == 1:
+			opts.Roots = nil
+		default:
+			if code-2 >= len(d.Pools) {
+				return M{"bool": false}
+			}
+			opts.Roots = d.Pools[code-2]
+		}
+		for _, h := range q["intermediates"].([]any) {
+			c, err := x509.ParseCertificate(unhx(h.(string)))
+			if err != nil {
+				return M{"bool": false}
+			}
+			opts.Intermediates.AddCert(c)
+		}
+		chains, err := leaf.Verify(opts)
+		return M{"bool": err == nil && len(chains) > 0 && len(chains[0]) > 0}
+	case "blobPayload":
+		var payload fido.MetadataBLOBPayload
+		if err := josejson.Unmarshal(unhx(q["payload"].(string)), &payload); err != nil {
+			return nil
+		}
+		b, _ := json.Marshal(payload)
+		return M{"bytes": hx(b)}
+	case "jwsVerify":
+		sig, err := jose.ParseSigned(string(unhx(q["raw"].(string))))
+		if err != nil {
+			return M{"bool": false}
+		}
+		leaf, err := x509.ParseCertificate(unhx(q["leaf"].(string)))
+		if err != nil {
+			return M{"bool": false}
+		}
+		_, err = sig.Verify(leaf.PublicKey)
+		return M{"bool": err == nil}
 	case "jwsHeaders":
 		tok, err := jwt.ParseSigned(string(unhx(q["raw"].(string))))
 		if err != nil {
